@@ -1,0 +1,29 @@
+//go:build verif
+
+package dhcp
+
+import (
+	"net"
+
+	"github.com/insomniacslk/dhcp/dhcpv4"
+)
+
+// VerifHandle calls the slow-path packet handler the way server4 does
+// (verification harness only).
+func (s *Server) VerifHandle(conn net.PacketConn, peer net.Addr, req *dhcpv4.DHCPv4) {
+	s.handleDHCP(conn, peer, req)
+}
+
+// VerifCleanupExpired runs one lease-cleanup tick.
+func (s *Server) VerifCleanupExpired() { s.cleanupExpiredLeases() }
+
+// VerifLeaseIP returns the address of the client's lease and its expiry, if any.
+func (s *Server) VerifLeaseIP(mac net.HardwareAddr) (net.IP, int64, bool) {
+	s.leasesMu.RLock()
+	defer s.leasesMu.RUnlock()
+	l := s.leases[mac.String()]
+	if l == nil {
+		return nil, 0, false
+	}
+	return l.IP, l.ExpiresAt.UnixNano(), true
+}
